@@ -339,6 +339,14 @@ func genC07(h *H) {
 			m := append([]byte{byte(hd)}, c1[1:]...)
 			h.do("header", "parse_compact", hx(m))
 		}
+		// Export / ExportCompact for every code 0..3 on both the low and the high s (codes 2, 3 carry the overflow bit)
+		for c := 0; c < 4; c++ {
+			for _, sv := range []string{ss, ns} {
+				h.do("export-all-codes", "export", rs, sv, strconv.Itoa(c))
+				h.do("export-all-codes", "export_compact", rs, sv, strconv.Itoa(c), "1", "27")
+				h.do("export-all-codes", "export_compact", rs, sv, strconv.Itoa(c), "0", "0")
+			}
+		}
 		// random (r, s, v, hash)
 		for c := 0; c < 4; c++ {
 			h.do("random-rsv", "recover", hx(h.randHash()), hx(be32(h.randKeyInt())), hx(be32(h.randKeyInt())), strconv.Itoa(c))
@@ -354,8 +362,15 @@ func genC07(h *H) {
 	for i := 0; i < 4*h.budget; i++ {
 		_, _, r, s, hash, ok := h.highXSig()
 		if ok {
+			nsv := hx(be32(new(big.Int).Sub(curveN, new(big.Int).SetBytes(unhx(s)))))
 			for c := 0; c < 4; c++ {
 				h.do("overflow-bit", "recover", hx(hash), r, s, strconv.Itoa(c))
+				// the exported forms of the high-s twin must recover the same key as the object
+				for _, sv := range []string{s, nsv} {
+					sig := secp.NewSignatureWithRecoveryCode(scalarFromHex(r), scalarFromHex(sv), byte(c))
+					h.do("overflow-bit-export", "recover_compact", hx(sig.ExportCompact(true, 27)), hx(hash))
+					h.do("overflow-bit-export", "recover", hx(hash), r, sv, strconv.Itoa(c))
+				}
 			}
 		}
 		h.do("x-not-on-curve", "recover", hx(h.randBytes(32)), hx(h.nonResidueX()), hx(be32(h.randKeyInt())), "0")
